@@ -93,6 +93,7 @@ def run(prog: Program, L: Ledger) -> None:
     L.rule("T2", "every driver accepting restart_file has todict and from_dict; the file dictionary contains every key from_dict indexes unconditionally")
     L.rule("T3", "kwargs of the file-path dictionary cover all constructor parameters without default and contain no key the constructor chain rejects")
     L.rule("T4", "every context slot is emitted, a handle, per-trial scratch (assigned in reset) or recomputed by validate_simulation; from_dict restores rng state in place after construction, attributes, context, move table")
+    L.rule("T6", "the restart writer keeps dictionary insertion order (no key sorting by default): the move table is rebuilt in file order and scheduled by position")
     L.rule("T5", "every class name reachable from a driver's dictionary is registered and admitted by the lookup base at its reading site")
     L.assume(asetab.validate_json_todict())
 
@@ -106,11 +107,35 @@ def run(prog: Program, L: Ledger) -> None:
     if call is None:
         raise AnalysisError("RestartObserver.__call__ not found")
     wj = [c for c in calls_in(call.node) if prog.resolve_dotted(call.module, dotted(c.func) or "").endswith("jsonio.write_json")]
-    if not wj:
-        raise AnalysisError("RestartObserver.__call__ no longer calls ase.io.jsonio.write_json")
-    objs = [norm(k.value) for c in wj for k in c.keywords if k.arg == "obj"] + [norm(c.args[1]) for c in wj if len(c.args) > 1]
+    jd = [c for c in calls_in(call.node) if prog.resolve_dotted(call.module, dotted(c.func) or "") in ("json.dumps", "json.dump")]
+    if not wj and not jd:
+        raise AnalysisError("RestartObserver.__call__ calls neither ase.io.jsonio.write_json nor json.dump(s)")
+    if wj:
+        objs = [norm(k.value) for c in wj for k in c.keywords if k.arg == "obj"] + [norm(c.args[1]) for c in wj if len(c.args) > 1]
+    else:
+        objs = [norm(c.args[0]) for c in jd if c.args] + [norm(k.value) for c in jd for k in c.keywords if k.arg == "obj"]
+        enc = [k.value for c in jd for k in c.keywords if k.arg == "cls"]
+        okenc = len(enc) == len(jd) and all(prog.resolve_dotted(call.module, dotted(e) or "").endswith("jsonio.MyEncoder") for e in enc)
+        L.check(okenc, "T1", "RestartObserver.__call__:encoder", call.where, "json.dump(s) is not given ASE's MyEncoder: objects are not converted through todict()", "TypeError when the restart file is written", "cls")
     L.check(objs == ["self.simulation"], "T1", "RestartObserver.__call__:obj", call.where,
             f"restart writer serialises `{objs}` instead of the simulation", "restart file does not describe the simulation", "write_json")
+    # T6: the file keeps the insertion order of the dictionaries — from_dict re-inserts the moves in file order and
+    # yield_moves turns a random draw into a move by its position in the table
+    init_ro = ro.methods.get("__init__")
+    defaults: dict | None = {}
+    if init_ro is not None:
+        for st_ in walk_no_nested(init_ro.node):
+            if isinstance(st_, (ast.Assign, ast.AnnAssign)) and st_.value is not None and any(norm(t) == "self.write_kwargs" for t in (st_.targets if isinstance(st_, ast.Assign) else [st_.target])):
+                defaults = _literal_default_dict(st_.value)
+    explicit = {k.arg: k.value for c in (wj or jd) for k in c.keywords if k.arg}
+    sort_explicit = explicit.get("sort_keys")
+    spreads_kwargs = any(k.arg is None and norm(k.value) == "self.write_kwargs" for c in (wj or jd) for k in c.keywords)
+    sorted_by_default = (isinstance(sort_explicit, ast.Constant) and sort_explicit.value is True) or (spreads_kwargs and defaults is not None and defaults.get("sort_keys") is True)
+    if spreads_kwargs and defaults is None:
+        raise AnalysisError("RestartObserver.__init__: default of write_kwargs is not a literal dictionary expression")
+    L.check(not sorted_by_default, "T6", "RestartObserver:key-order", call.where,
+            "the restart writer sorts dictionary keys by default: the move table is written alphabetically, from_dict re-inserts the moves in that order, and yield_moves maps its random draws to moves by position",
+            "a table whose insertion order is not alphabetical (e.g. 'small' then 'large', or the default cell+displacement moves): the restarted run turns the same random numbers into different moves", "sort_keys")
 
     # ------------------------------------------------------------------ T1
     stale = stale_aliases(prog)
@@ -202,6 +227,51 @@ def run(prog: Program, L: Ledger) -> None:
                     f"{fam} `{ci.name}` can appear in a restart file but is not registered under its name",
                     f"restart of a simulation using {ci.name}: get_class({ci.name!r}) -> KeyError", ci.name)
     L.floor("classes reachable from a driver dictionary", n5, 20)
+
+
+def _literal_default_dict(e: ast.expr) -> dict | None:
+    """value of a dictionary-valued default expression when the caller passes None: `x or {}`, `{"k": c, **(x or {})}`"""
+    if isinstance(e, ast.BoolOp) and isinstance(e.op, ast.Or) and len(e.values) == 2 and isinstance(e.values[0], ast.Name):
+        return _literal_default_dict(e.values[1])
+    if isinstance(e, ast.IfExp):
+        a, b = _literal_default_dict(e.body), _literal_default_dict(e.orelse)
+        if isinstance(e.body, ast.Name):
+            return b
+        if isinstance(e.orelse, ast.Name):
+            return a
+        return a if a == b else None
+    if isinstance(e, ast.Call) and norm(e.func) == "dict" and not e.args:
+        out = {}
+        for k in e.keywords:
+            if k.arg is None:
+                sub = _literal_default_dict(k.value)
+                if sub is None:
+                    return None
+                out.update(sub)
+            elif isinstance(k.value, ast.Constant):
+                out[k.arg] = k.value.value
+            else:
+                out[k.arg] = None
+        return out
+    if isinstance(e, ast.Dict):
+        out = {}
+        for k, v in zip(e.keys, e.values):
+            if k is None:
+                sub = _literal_default_dict(v)
+                if sub is None:
+                    return None
+                out.update(sub)
+            elif isinstance(k, ast.Constant):
+                out[k.value] = v.value if isinstance(v, ast.Constant) else None
+            else:
+                return None
+        return out
+    if isinstance(e, ast.BinOp) and isinstance(e.op, ast.BitOr):
+        a, b = _literal_default_dict(e.left), _literal_default_dict(e.right)
+        if a is None or b is None:
+            return None
+        return {**a, **b}
+    return None
 
 
 def _check_from_dict(prog: Program, L: Ledger, d: ClassInfo, fd: FuncInfo) -> None:
